@@ -18,6 +18,7 @@ type PropCheck struct {
 	Explanation string   // clauses decided
 	NotDecided  string   // what the check does not decide
 	Trusted     []string // trusted base / assumptions
+	Rules       []string // the rules this property owns; generators are selected from them
 	Run         func(c *Ctx)
 }
 
@@ -108,6 +109,7 @@ func runProp(id, tier, repo, vdir string, seed int, progs map[bool]*Prog) (code 
 		return 2
 	}
 	r := newReport(id, tier)
+	r.restrict(chk.Rules)
 	configs := []string{"linux/amd64 cgo=on (default build)"}
 	thorough := tier == "thorough"
 	run := func(cgo bool, cfgName string) {
@@ -168,6 +170,7 @@ func doReplay(path, repo, vdir string) int {
 	}
 	activeProg = p
 	r := newReport(rp.Property, "quick")
+	r.restrict(chk.Rules)
 	func() {
 		defer func() {
 			if e := recover(); e != nil {
